@@ -65,6 +65,12 @@ func Farm() *TLSFarm {
 		os.WriteFile(filepath.Join(d, "client.crt"), PEMCert(der), 0o644)
 		kb, _ := x509.MarshalPKCS8PrivateKey(Key("p256b"))
 		os.WriteFile(filepath.Join(d, "client.key"), pem.EncodeToMemory(&pem.Block{Type: "PRIVATE KEY", Bytes: kb}), 0o600)
+		// The "foreign" CA is the one CA this process's HOST trust store trusts (crypto/x509 loads the
+		// system roots lazily from these variables): a server certified by it stands for a server with a
+		// publicly trusted certificate, which the RA must refuse all the same unless it is configured.
+		os.Mkdir(filepath.Join(d, "emptycertdir"), 0o755)
+		os.Setenv("SSL_CERT_FILE", filepath.Join(d, "caForeign.crt"))
+		os.Setenv("SSL_CERT_DIR", filepath.Join(d, "emptycertdir"))
 		farm = f
 	})
 	return farm
